@@ -20,6 +20,8 @@ use super::{RecvInfo, Transmit};
 use crate::endpoint::RelayStatus;
 
 mod actor;
+#[cfg(feature = "verif-hooks")]
+pub(crate) mod verif;
 
 pub(crate) use self::actor::{Config as RelayActorConfig, HomeRelayWatch, RelayConnectionState};
 use self::actor::{RelayActor, RelayActorMessage, RelayRecvDatagram, RelaySendItem};
